@@ -152,7 +152,8 @@ class Signer(SuitEnvelopeSignerBase):
         self._algorithm = algorithm
         self._context = context
         self._skip_signing = False
-        self.envelope = input_envelope
+        # cbor2 >= 6 decodes the content of a tag as an immutable mapping - work on a mutable copy
+        self.envelope = cbor2.CBORTag(input_envelope.tag, dict(input_envelope.value))
 
         self.init_kms_backend(kms_script)
         self.already_signed_action(already_signed_action)
